@@ -131,3 +131,47 @@ fn balance_decode_invariant() {
     }
 }
 
+
+// ---- C15 / C16: the text form of a channel id.  base64 is replaced by recording stubs (its contract - decode inverts
+// encode - is the assumption): `from_str` accepts exactly the strings whose decoding has 32 bytes, returns exactly those
+// bytes, and returns an error (never panics) for every other decoding result, of any length up to 40.
+mod chanid_text {
+    use crate::states::ChannelId;
+    use std::str::FromStr;
+    static mut DEC_OK: bool = false;
+    static mut DEC_CALLS: u32 = 0;
+    static mut DEC_LEN: usize = 0;
+    static mut DEC: [u8; 40] = [0; 40];
+    fn stub_decode<T: AsRef<[u8]>>(_input: T) -> Result<Vec<u8>, base64::DecodeError> {
+        unsafe {
+            DEC_CALLS += 1;
+            DEC_OK = kani::any();
+            if !DEC_OK { return Err(base64::DecodeError::InvalidLength); }
+            DEC_LEN = kani::any();
+            kani::assume(DEC_LEN <= 40);
+            DEC = kani::any();
+            let mut v = Vec::with_capacity(40);
+            let mut i = 0;
+            while i < DEC_LEN { v.push(DEC[i]); i += 1; }
+            Ok(v)
+        }
+    }
+    #[kani::proof]
+    #[kani::unwind(42)]
+    #[kani::stub(base64::decode::decode, stub_decode)]
+    fn channel_id_from_str_exact() {
+        let r = ChannelId::from_str("any text: decoding is the stub's business");
+        unsafe {
+            assert!(DEC_CALLS == 1); // the recording stub, not the real decoder, was reached (vacuity guard)
+            match r {
+                Ok(id) => {
+                    assert!(DEC_OK && DEC_LEN == 32);
+                    let b = id.to_bytes();
+                    let mut i = 0;
+                    while i < 32 { assert!(b[i] == DEC[i]); i += 1; }
+                }
+                Err(_) => assert!(!DEC_OK || DEC_LEN != 32),
+            }
+        }
+    }
+}
